@@ -29,10 +29,10 @@ def configs_for(v, tier, name):
     return small + extra
 
 
-def extract(F, v, m, N, M=None, gamma=None):
+def extract(F, v, m, N, M=None, gamma=None, ctor='new'):
     """Steady-state linear system(s) for one configuration. Returns list of dict(rows, out, problems, exit) or a
     string when the constructor rejects the configuration."""
-    mms = [x for x in m.ctor_models if x['fn'].name == 'new' and x['init'] is not None]
+    mms = [x for x in m.ctor_models if x['fn'].name == ctor and x['init'] is not None]
     if not mms:
         return 'no-new'
     mm = mms[0]
@@ -56,7 +56,7 @@ def extract(F, v, m, N, M=None, gamma=None):
     steps = 3 * N + 24 + (M or 0) * 2
     res = []
     for cname, states, pr in steady_state(m, [args[i] for i in ints], steps):
-        if cname != 'new':
+        if cname != ctor:
             continue
         if states is None:
             return 'rejected'
@@ -214,6 +214,9 @@ def run_c09(F, R, tier):
     exp_form_rule(F, R)
     normaliser_rule(F, R)
     fisher_feedback(F, R)
+    from .e_typed_props import no_absolute_thresholds
+    no_absolute_thresholds(F, R, spec.RECURSIVE_VIEWS, 'G0')
+    linear_members_branch_free(F, R)
     R.floor('S1-radius', 9)
     R.floor('S3-exp', 3)
     R.decline('boundedness through the non-linear stages beyond the rules above, "any chain built from them", and N beyond the enumerated range (except through the exp-form rule) are not decided')
@@ -314,6 +317,53 @@ def fisher_feedback(F, R):
     R.ob('S2-fisher', 'EhlersFisherTransform', ok, detail, v.file)
 
 
+def linear_members_branch_free(F, R):
+    """The linear recursions must advance on every delivered value: no comparison on data (a data-dependent early return
+    or hold freezes the state, so the effect of earlier values no longer dies out)."""
+    from .e_typing import analyse_view, Lin
+    views = view_by_name(F)
+    for n in ('Ema', 'LaguerreFilter', 'SuperSmoother', 'RoofingFilter', 'CyberCycle'):
+        v = views.get(n)
+        if v is None:
+            continue
+        dom, tau, out, m = analyse_view(F, v, Lin)
+        R.ob('S4-branch-free', n, not dom.datadep, 'the recursion has no data-dependent branch' if not dom.datadep else
+             'data-dependent branch in the recursion: %s' % tstr(dom.datadep[0])[:100], v.file)
+
+
+def ema_recurrence(F, R, tier):
+    """Ema: in steady state out' = w·x + (1−w)·e with w = alpha/(N+1), for the default and for custom alpha
+    (form-independent: read off the extracted linear forms), and the first delivered value seeds e."""
+    v = view_by_name(F).get('Ema')
+    if v is None:
+        R.violation('B2-ema', 'Ema', 'not found')
+        return
+    m = model(F, v)
+    bad = []
+    cnt = 0
+    Ns = list(range(1, 33)) + [64, 128] if tier == 'quick' else list(range(1, 129)) + [256, 1024]
+    for ctor, alphas in (('new', [None]), ('with_alpha', [0.5, 1.0, 2.0])):
+        for alpha in alphas:
+            for N in Ns:
+                if alpha is not None and alpha > N + 1:
+                    continue
+                sysl = extract(F, v, m, N, None, alpha, ctor)
+                if isinstance(sysl, str) or not sysl:
+                    continue
+                w = (2.0 if alpha is None else alpha) / (N + 1)
+                for sy in sysl:
+                    if sy['out'] is None:
+                        continue
+                    cnt += 1
+                    h = impulse_response(sy['rows'], sy['out'], 24)
+                    ref = [w * (1 - w) ** k for k in range(24)]
+                    if not close(h, ref, 1e-9):
+                        bad.append('%s(N=%d%s): steady-state impulse response %s..., expected w(1−w)^k with w = %.6g' % (
+                            ctor, N, '' if alpha is None else ', alpha=%s' % alpha, [round(x, 6) for x in h[:3]], w))
+    R.ob('B2-ema', 'Ema:recurrence', not bad and cnt > 0, 'e_t = w·x_t + (1−w)·e_(t−1), w = alpha/(N+1), for %d configurations (default and custom alpha)' % cnt
+         if not bad else '; '.join(bad[:2]), v.file)
+
+
 def run_c10_dc(F, R, tier):
     """DC gain clause of C10 from the extracted steady-state systems."""
     views = view_by_name(F)
@@ -351,6 +401,82 @@ def run_c10_dc(F, R, tier):
             R.ob('DC', '%s:N=%s' % (n, key), False, 'steady-state DC gain is %s, the property needs %s (a constant stream is not mapped to %s)' % (
                 ('%.6g' % dc) if isinstance(dc, float) else dc, want, 'itself' if want else '0'), v.file)
         R.ob('DC-coverage', n, nconf > 0, 'steady-state DC gain evaluated for %d configurations (%d differ from %s, reported individually)' % (nconf, len(bad), want), v.file)
+
+
+def pfe_sign_rule(F, R):
+    """PFE: the ratio is negated exactly when the last step is down (newest < previous); flat or up keeps it positive."""
+    from .terms import cases_deep, relation
+    v = view_by_name(F).get('PolarizedFractalEfficiency')
+    if v is None:
+        return
+    m = model(F, v)
+    fed = None
+    for cp, feeds in m.up_vg.child_fed.items():
+        for pc, arg, node in feeds:
+            if arg[0] != 'arg':
+                fed = arg
+    ok = fed is not None
+    detail = 'no value fed to the moving average'
+    seen = set()
+    if fed is not None:
+        V = None
+        for x in subterms(fed):
+            if x[0] == 'child':
+                V = x
+        for conds, leaf in cases_deep(fed):
+            negated = leaf[0] == 'op' and leaf[1] == 'neg'
+            allowed = {'<', '=', '>'}
+            prevs = set()
+            for c in conds:
+                x = c
+                while x[0] == 'op' and x[1] == 'not':
+                    x = x[2][0]
+                if x[0] == 'op' and x[1] in ('lt', 'le', 'gt', 'ge', 'eq', 'ne') and V in x[2]:
+                    other = x[2][1] if x[2][0] == V else x[2][0]
+                    if other[0] == 'get':
+                        r = relation(c, V, other)
+                        if r is not None:
+                            allowed &= r
+                            prevs.add(other)
+            if not prevs:
+                continue
+            seen.add(negated)
+            if negated and not allowed <= {'<'}:
+                ok = False
+                detail = 'the ratio is negated although the last step may be flat or up (newest ? previous in %s)' % sorted(allowed)
+            if not negated and not allowed <= {'>', '='}:
+                ok = False
+                detail = 'the ratio is kept positive although the last step may be down'
+        if seen != {True, False}:
+            ok = False
+            detail = 'sign selection on the last step not recognised'
+    R.ob('K5-pfe-sign', 'PolarizedFractalEfficiency', ok, 'negative exactly when the last step is down' if ok else detail, v.file)
+
+
+def fisher_ma_input(F, R):
+    """Fisher transform: the supplied moving average smooths the min-max normalised value 2((x−low)/(high−low) − 0.5)."""
+    v = view_by_name(F).get('EhlersFisherTransform')
+    if v is None:
+        return
+    m = model(F, v)
+    ok = False
+    detail = 'the moving average is not fed 2·((x − low)/(high − low) − 0.5)'
+    for cp, feeds in m.up_vg.child_fed.items():
+        for pc, arg, node in feeds:
+            if arg[0] == 'arg':
+                continue
+            a = arg
+            if a[0] == 'op' and a[1] == 'mul' and lit(2.0) in a[2]:
+                inner = a[2][1] if a[2][0] == lit(2.0) else a[2][0]
+                if inner[0] == 'op' and inner[1] == 'sub' and inner[2][1] == lit(0.5):
+                    q = inner[2][0]
+                    if q[0] == 'op' and q[1] == 'div' and q[2][0][0] == 'op' and q[2][0][1] == 'sub' and q[2][1][0] == 'op' and q[2][1][1] == 'sub':
+                        x_, lo1 = q[2][0][2]
+                        hi, lo2 = q[2][1][2]
+                        if lo1 == lo2 and x_[0] == 'child':
+                            ok = True
+                            detail = 'moving average input is 2·((x − low)/(high − low) − 0.5) with the window\'s current extrema'
+    R.ob('K6-fisher-input', 'EhlersFisherTransform', ok, detail, v.file)
 
 
 def run_c11(F, R, tier):
@@ -454,6 +580,10 @@ def run_c11(F, R, tier):
             R.ob('K4-extremum', 'EhlersFisherTransform:%s' % cell, ok, detail, v.file)
         R.ob('K4-extremum', 'EhlersFisherTransform', found >= 2, '%d window extremum cells recognised' % found, v.file)
     names = ['SuperSmoother', 'RoofingFilter', 'LaguerreFilter', 'LaguerreRSI', 'CyberCycle', 'TrendFlex', 'ReFlex', 'EhlersFisherTransform', 'PolarizedFractalEfficiency']
+    from .e_typed_props import no_absolute_thresholds
+    no_absolute_thresholds(F, R, names, 'G0')
+    pfe_sign_rule(F, R)
+    fisher_ma_input(F, R)
     no_raw_in_state(F, R, names, 'R2s')
     inert_none_path(F, R, names, 'Q1')
     R.floor('K1-impulse', 5)
